@@ -55,6 +55,8 @@ def build(inp):
             c.why = "encoding differs from a fresh value with the same exported content"
     except Exception as e:
         c.why = "mutated view cannot be exported / rebuilt: %r" % (e,)
+    if c.why is None:
+        c.why = lazy_disagreement(inp, obs)
     return c
 
 
